@@ -64,10 +64,11 @@ type Cfg struct {
 type Input struct {
 	Top   string   `json:"top"` // block: db.Transaction(body) ; manual: tx := db.Begin(); body; tx.Commit()/tx.Rollback()
 	Body  Blk      `json:"body"`
-	Extra []string `json:"extra,omitempty"` // manual only: further commit/rollback calls after the end
-	Conn  bool     `json:"conn,omitempty"`  // the program runs inside db.Connection(func(c *gorm.DB) error {...}) on the dedicated-connection handle c
-	Opts  bool     `json:"opts,omitempty"`  // Transaction(fc, &sql.TxOptions{}) / Begin(&sql.TxOptions{})
-	Stray []string `json:"stray,omitempty"` // before the program: commit/rollback called on a handle that is NOT in a transaction (a session copy of the pool handle)
+	Extra []string `json:"extra,omitempty"`  // manual only: further commit/rollback calls after the end
+	Conn  bool     `json:"conn,omitempty"`   // the program runs inside db.Connection(func(c *gorm.DB) error {...}) on the dedicated-connection handle c
+	ErrIs string   `json:"err_is,omitempty"` // what the injected fault also is (errors.Is): "" | "canceled" (context.Canceled) | "deadline" (context.DeadlineExceeded), while every context of the program is alive
+	Opts  bool     `json:"opts,omitempty"`   // Transaction(fc, &sql.TxOptions{}) / Begin(&sql.TxOptions{})
+	Stray []string `json:"stray,omitempty"`  // before the program: commit/rollback called on a handle that is NOT in a transaction (a session copy of the pool handle)
 	Cfg   Cfg      `json:"cfg"`
 	Fault int      `json:"fault"` // index of the driver operation that fails (-1: none)
 	Phase string   `json:"phase"` // exec | prepare (fail the first driver call of the operation, i.e. its prepare if it has one)
@@ -182,6 +183,12 @@ func (t *wrapTx) Commit() error {
 	}
 	return t.Tx.Commit()
 }
+
+// ctxFault is the injected fault that also is a context error.
+type ctxFault struct{ ctx error }
+
+func (e *ctxFault) Error() string   { return errFault.Error() + ": " + e.ctx.Error() }
+func (e *ctxFault) Is(t error) bool { return t == errFault || t == e.ctx }
 
 type env struct {
 	wrap  *wrapPool
@@ -471,12 +478,19 @@ func run(in Input) Observed {
 	var ops []Op
 	pendingPrepare := false
 	e.rec.Reset()
+	var theFault error = errFault
+	switch in.ErrIs {
+	case "canceled":
+		theFault = &ctxFault{context.Canceled}
+	case "deadline":
+		theFault = &ctxFault{context.DeadlineExceeded}
+	}
 	e.rec.Fault = func(_ int, ev *recdrv.Event) error {
 		k := opKind(ev)
 		if ev.Kind == "prepare" {
 			if !pendingPrepare && len(ops) == in.Fault && in.Phase == "prepare" {
 				ops = append(ops, Op{K: k, F: true}) // a SAVEPOINT can be prepared too (PrepareStmt set twice)
-				return errFault
+				return theFault
 			}
 			pendingPrepare = true
 			return nil
@@ -484,7 +498,7 @@ func run(in Input) Observed {
 		pendingPrepare = false
 		if len(ops) == in.Fault {
 			ops = append(ops, Op{K: k, F: true})
-			return errFault
+			return theFault
 		}
 		ops = append(ops, Op{K: k})
 		return nil
@@ -688,7 +702,7 @@ func term(in Input, o Observed) string {
 	stray := lib.ListOf(in.Stray, func(s string) string { return lib.Bool(s == "commit") })
 	return lib.App("mk_case",
 		lib.Bool(in.Top == "manual"), progTerm(&in.Body), extra, stray,
-		lib.App("mk_cfg", lib.Bool(in.Cfg.Prep), lib.Bool(in.Cfg.NoNest), lib.Bool(in.Cfg.SkipDef), lib.Bool(in.Cfg.Report), lib.Bool(in.Cfg.NoSP), lib.Bool(in.Cfg.Wrap || in.Cfg.Soft), lib.Bool(in.Cfg.Soft)),
+		lib.App("mk_cfg", lib.Bool(in.Cfg.Prep && !in.Conn) /* on a dedicated connection the handle leaves prepared mode */, lib.Bool(in.Cfg.NoNest), lib.Bool(in.Cfg.SkipDef), lib.Bool(in.Cfg.Report), lib.Bool(in.Cfg.NoSP), lib.Bool(in.Cfg.Wrap || in.Cfg.Soft), lib.Bool(in.Cfg.Soft)),
 		fault,
 		lib.App("OC", lib.Bool(o.Entered), lib.ListOf(o.Log, obsTerm), clsTerm(o.Exit), clsTerm(o.Ret)),
 		lib.ListOf(o.Extra, clsTerm), lib.ListOf(o.Stray, clsTerm),
@@ -860,7 +874,7 @@ func shape(in Input, o Observed) string {
 	if in.Fault >= 0 && in.Fault < len(o.Ops) {
 		fk = o.Ops[in.Fault].K
 	}
-	fmt.Fprintf(&sb, "|f%d:%s:%s|%v", in.Fault, fk, in.Phase, in.Extra)
+	fmt.Fprintf(&sb, "|f%d:%s:%s%s|%v", in.Fault, fk, in.Phase, in.ErrIs, in.Extra)
 	return sb.String()
 }
 
@@ -932,6 +946,10 @@ func smallTrees(depth int, g *gen) []Blk {
 				for _, k := range kids {
 					mk(k, true, false)
 					mk(k, false, false)
+					if len(k.Items) > 0 && k.Out == "err" { // the child under its own context, cancelled before it fails or not
+						mk(k, false, false)
+						outs[len(outs)-1].Items[len(outs[len(outs)-1].Items)-1-post].Cx = true
+					}
 					if k.Out == "panic" || len(k.Items) > 0 {
 						mk(k, false, true)
 					}
@@ -1052,6 +1070,7 @@ func main() {
 	// corpus replays one).
 	faulted := func(kind string, in Input, free Observed, k int, phase string) {
 		in.Fault, in.Phase = k, phase
+		in.ErrIs = []string{"", "", "canceled", "deadline"}[(k+len(free.Ops))%4]
 		in.Body = copyBlk(&in.Body)
 		if !in.Cfg.Report && (free.Ops[k].K == "save" || free.Ops[k].K == "rbto") {
 			return
@@ -1093,6 +1112,9 @@ func main() {
 					in.Extra = [][]string{{"rollback"}, {"commit"}, nil}[ti%3]
 				}
 				in.Conn = (ti+2*ci)%7 == 3
+				if !in.Conn && (ti+3*ci)%9 == 4 {
+					in.Cfg.Wrap, in.Cfg.Soft = true, ti%2 == 0
+				}
 				free := add("sweep", in)
 				for k := range free.Ops {
 					ph := "exec"
